@@ -594,7 +594,10 @@ class PortProtocol(_DeviceIdFilterMixin, _BaseProtocol):
 
         super().pkt_received(pkt)
         if self._context:
-            self._context.pkt_received(pkt)
+            try:
+                self._context.pkt_received(pkt)
+            except exc.PacketInvalid:  # e.g. the hdr of a pkt excluded by the filter
+                pass  # an invalid pkt is neither an echo nor a reply
 
     async def _send_impersonation_alert(self, cmd: Command) -> None:
         """Send an puzzle packet warning that impersonation is occurring."""
